@@ -365,7 +365,9 @@ def _unreach_ok(ctx, b, c):
             continue
         rd = b.unique_def(rp.root)
         if rd is None or rd[1] != "call":
-            return False, "the tested Result is not the direct result of a call"
+            if 1 <= rp.root <= b.arg_count:
+                return False, "the tested Result is a parameter"
+            return _never_err(ctx, b, {}, 0, rp.root)
         rc = ctx.call_at(b, rd[0].bb)
         lc = rc.local_callee()
         if lc is None:
@@ -375,12 +377,17 @@ def _unreach_ok(ctx, b, c):
     return False, "not guarded by the Err outcome of a call result"
 
 
-def _never_err(ctx, f, consts, depth):
-    """every place where f's return value becomes Err is control-dependent on a bool parameter being true while the caller passes false"""
+def _never_err(ctx, f, consts, depth, local=0, _seen=None):
+    """every place where f's return value (or the given Result-typed local) becomes Err is control-dependent on a bool parameter being true
+    while the caller passes false, or on a condition that is the constant false in this body"""
     if depth > 3:
         return False, "call chain too deep (unproven)"
+    _seen = _seen if _seen is not None else set()
+    if local in _seen:
+        return True, "cyclic copy"
+    _seen.add(local)
     sites = []
-    for d in f.defs().get(0, []):
+    for d in f.defs().get(local, []):
         if f.is_cleanup(d[0].bb):
             continue
         if d[1] == "assign":
@@ -388,6 +395,9 @@ def _never_err(ctx, f, consts, depth):
             if rv["k"] == "aggregate" and rv.get("adt") == "core::result::Result":
                 if rv["variant"] == "Err":
                     sites.append((d[0], "Err(..)"))
+                continue
+            if rv["k"] == "use" and rv["op"]["k"] in ("copy", "move") and not rv["op"]["place"]["proj"]:
+                sites.append((d[0], "copy of _%d" % rv["op"]["place"]["local"], None, rv["op"]["place"]["local"]))
                 continue
             sites.append((d[0], "unknown assignment to the return place"))
         elif d[1] == "call":
@@ -412,7 +422,11 @@ def _never_err(ctx, f, consts, depth):
     for site in sites:
         loc, what = site[0], site[1]
         guarded = False
-        if len(site) > 2:
+        if len(site) > 3:
+            ok_sub, why_sub = _never_err(ctx, f, consts, depth, site[3], _seen)
+            if ok_sub:
+                continue
+        if len(site) == 3:
             # the error can only come from a griddle callee: it cannot, if that callee never errs under the constants we pass on
             g = site[2]
             sub = {}
@@ -431,9 +445,9 @@ def _never_err(ctx, f, consts, depth):
             if t["k"] != "switch":
                 continue
             p = f.op_path(t["discr"])
-            if p is None or p.fields() or not (1 <= p.root <= f.arg_count):
-                continue
-            if consts.get(p.root) != 0:
+            if f.op_const(t["discr"]) == 0:
+                pass        # the condition is the constant `false` in this body (e.g. an inlined helper's flag)
+            elif p is None or p.fields() or not (1 <= p.root <= f.arg_count) or consts.get(p.root) != 0:
                 continue
             # the site must lie on the non-zero edge
             tb = t["otherwise"]
